@@ -957,3 +957,33 @@ def directed_package(namespace="Dir"):
     steps.append(("uu", ("union", True, [("dArr", ("arr", P("float64"), ("dyn",))), ("dMap", ("map", P("string"), P("int64"))), ("dEn", ("named", "DE", []))]), True))
     pkg.defs.append({"kind": "protocol", "name": "PMapUnion", "steps": steps})
     return pkg
+
+
+def shrink_value(ty, v):
+    """The 'smallest' value of the same type: empty containers, absent optionals, first union case
+    kept. Used to build consecutive stream items of very different shape."""
+    k = ty[0]
+    if k in ("prim", "enum"):
+        return v
+    if k == "rec":
+        return ["rec", [shrink_value(ft, fv) for (_, ft), fv in zip(ty[1], v[1])]]
+    if k == "opt":
+        return ["none"]
+    if k == "union":
+        if ty[1]:
+            return ["none"]
+        return ["case", v[1], shrink_value(ty[2][v[1]][1], v[2])] if v[0] == "case" else v
+    if k == "vec":
+        if ty[2] is None:
+            return ["list", []]
+        return ["list", [shrink_value(ty[1], x) for x in v[1]]]
+    if k == "arr":
+        kind = ty[2]
+        if kind[0] == "fixed":
+            return ["arr", v[1], [shrink_value(ty[1], x) for x in v[2]]]
+        if kind[0] == "rank":
+            return ["arr", [0] * kind[1], []]
+        return ["arr", [0], []]
+    if k == "map":
+        return ["map", []]
+    return v
